@@ -601,8 +601,9 @@ func c02Scenarios(ctx *vr.Ctx) []*c02Scn {
 		for _, kind := range []string{"mem", "pq"} {
 			l = append(l, &c02Scn{Name: "T1-" + kind, Kind: kind, Cap: 2, Block: true, Consumers: 2, ConsumerPoint: true, Big: true,
 				Producers: [][]c02Offer{{one(1), {ID: 2, Size: 2}}, {one(3), one(4)}}, Observers: 2, Shutdown: "end"})
+			// (nobody drains: the size-2 producer may legitimately stay blocked when one of the others got in)
 			l = append(l, &c02Scn{Name: "T2-" + kind, Kind: kind, Cap: 2, Block: true, Prefill: []c02Offer{one(1), one(2)}, PreRead: 2, Completer: true,
-				Producers: [][]c02Offer{{{ID: 3, Size: 1, Ctx: 1}}, {{ID: 4, Size: 1, Ctx: 2}}, {{ID: 5, Size: 2}}}, Cancel: []int{1, 2}, Shutdown: "none"})
+				Producers: [][]c02Offer{{{ID: 3, Size: 1, Ctx: 1}}, {{ID: 4, Size: 1, Ctx: 2}}, {{ID: 5, Size: 2}}}, Cancel: []int{1, 2}, FullOK: true, Shutdown: "none"})
 		}
 	}
 	return l
@@ -715,7 +716,7 @@ func c02RunOne(rp c02Replay, logf func(string, ...any)) (string, string) {
 
 func c02Verdict(sc *c02Scn, h *c02Hist, s *vs.Sched) (string, string) {
 	if v := s.Verdict(); v != "" {
-		if s.Deadlock && sc.FullOK {
+		if s.Deadlock && sc.FullOK && !strings.Contains(s.DeadlockSig(), "chan-send@(*cond).") {
 			var msize int64
 			for _, o := range h.ops {
 				if o.Kind == opOffer && o.Ret > 0 && o.Res == "ok" {
